@@ -101,7 +101,7 @@ func ruleACCUM(w *World, r *Report) {
 				r.unk("ACCUM", "A-credit:loop", w.ipos(rg), "loop header not found")
 				continue
 			}
-			var upd *ssa.MapUpdate
+			var upd ssa.Instruction
 			for _, b2 := range fn.Blocks {
 				if !hdr.Dominates(b2) {
 					continue
@@ -109,6 +109,34 @@ func ruleACCUM(w *World, r *Report) {
 				for _, in2 := range b2.Instrs {
 					if mu, ok := in2.(*ssa.MapUpdate); ok && strings.HasSuffix(deepPathNoResolve(mu.Map), ".locations") {
 						upd = mu
+					}
+					// or a call of a private helper every return of which has made that update
+					if c, ok := in2.(*ssa.Call); ok {
+						if g := c.Call.StaticCallee(); g != nil && g != fn && inRegion(fn, g) && len(g.Blocks) > 0 {
+							all := true
+							nret := 0
+							for _, gb := range g.Blocks {
+								ret, ok := gb.Instrs[len(gb.Instrs)-1].(*ssa.Return)
+								if !ok {
+									continue
+								}
+								nret++
+								dom := false
+								for _, gb2 := range g.Blocks {
+									for _, gi := range gb2.Instrs {
+										if mu, ok := gi.(*ssa.MapUpdate); ok && strings.HasSuffix(deepPathNoResolve(mu.Map), ".locations") && instrDominates(mu, ret) {
+											dom = true
+										}
+									}
+								}
+								if !dom {
+									all = false
+								}
+							}
+							if all && nret > 0 {
+								upd = c
+							}
+						}
 					}
 				}
 			}
